@@ -13,7 +13,8 @@ from typing import Dict, List, Optional, Set
 
 from ..index import AnalysisError, call_name, norm, norm1
 from .attrs import fold_class_list
-from .common import calls, enclosing, fctx, in_body, is_name, method_calls, stmts
+from ..sem import Sem, built_container, inline_private_helpers
+from .common import calls, enclosing, fctx, in_body, is_name, method_calls, pmatch, stmts
 
 LEVEL = "other"
 EXPLANATION = (
@@ -43,6 +44,44 @@ def _ctor_calls(f) -> List[ast.Call]:
     return out
 
 
+def _dict_normal(S: Sem, e: ast.AST, at: int):
+    """(key text, value text, iterated source text, [filter texts]) of a dict built by a comprehension or by `d = {}` + a loop that
+    stores `d[k] = v`; loop variables are expressed through the iterated container (v ↦ source[k])."""
+    if isinstance(e, ast.Name):
+        b = built_container(S, e.id, at)
+        if b is not None and isinstance(b.node, ast.DictComp):
+            ds = S.du.reaching(e.id, at)
+            return _dict_normal(S, b.node, ds[0].node if ds else at)
+        if b is None or b.kind != "dict" or len(b.loops) != 1:
+            ds = S.du.reaching(e.id, at)
+            if len(ds) == 1 and isinstance(ds[0].value, ast.DictComp):
+                return _dict_normal(S, ds[0].value, ds[0].node)
+            return None
+        tgt, it = b.loops[0]
+        st_at = S.cfg.node(b.node)
+        key = S.rnorm(b.key, st_at)
+        val = S.rnorm(b.value, st_at)
+        src = norm(it.func.value) if isinstance(it, ast.Call) and isinstance(it.func, ast.Attribute) and it.func.attr in ("items", "keys") else norm(it)
+        return key, val, src, [S.rnorm(c_, st_at) for c_ in b.conds]
+    if isinstance(e, ast.DictComp) and len(e.generators) == 1:
+        ge = e.generators[0]
+        tv = S.comp_element(e, at)
+        if not isinstance(tv, ast.Tuple):
+            return None
+        it = ge.iter
+        src = norm(it.func.value) if isinstance(it, ast.Call) and isinstance(it.func, ast.Attribute) and it.func.attr in ("items", "keys") else norm(it)
+        bound = {n.id for n in ast.walk(ge.target) if isinstance(n, ast.Name)}
+        conds = []
+        for c_ in ge.ifs:
+            sub = {}
+            if isinstance(it, ast.Call) and isinstance(it.func, ast.Attribute) and it.func.attr == "items" and isinstance(ge.target, ast.Tuple) and len(ge.target.elts) == 2 \
+                    and isinstance(ge.target.elts[1], ast.Name):
+                sub[ge.target.elts[1].id] = ast.Subscript(value=it.func.value, slice=ge.target.elts[0], ctx=ast.Load())
+            conds.append(norm(S._subst(c_, sub)))
+        return norm(tv.elts[0]), norm(tv.elts[1]), src, conds
+    return None
+
+
 def run(ctx) -> None:
     idx = ctx.index
 
@@ -58,8 +97,15 @@ def run(ctx) -> None:
         for d in ast.walk(wd.node):
             if isinstance(d, ast.Call) and call_name(d) == "dict":
                 written |= {k.arg for k in d.keywords if k.arg}
+            if isinstance(d, ast.Dict):
+                written |= {k.value for k in d.keys if isinstance(k, ast.Constant) and isinstance(k.value, str)}
             if isinstance(d, ast.DictComp) and isinstance(d.key, ast.JoinedStr):
                 written.add("Energies_{}")
+            if isinstance(d, ast.Assign) and isinstance(d.targets[0], ast.Subscript):
+                if isinstance(d.targets[0].slice, ast.JoinedStr):
+                    written.add("Energies_{}")
+                elif isinstance(d.targets[0].slice, ast.Constant) and isinstance(d.targets[0].slice.value, str):
+                    written.add(d.targets[0].slice.value)
         rpm = fctx(rd)[2]
         for n in ast.walk(rd.node):
             key = None
@@ -82,6 +128,8 @@ def run(ctx) -> None:
                     guarded = True
                 if isinstance(x, ast.BoolOp) and f"'{key}' in res" in norm(x.values[0]):
                     guarded = True
+                if isinstance(x, ast.IfExp) and f"'{key}' in res" in norm(x.test) and any(n is y for y in ast.walk(x.body)):
+                    guarded = True
             r1.check(key in written or guarded, f"{cn}: key {key!r} read ← written{' (guarded)' if guarded else ''}", rd, n,
                      f"{cn}.from_npz reads the key {key!r} which {cn}.as_dict never writes (written: {sorted(written)}): a saved "
                      f"result cannot be loaded back", stmt=f"key {key}")
@@ -89,11 +137,31 @@ def run(ctx) -> None:
             need = {"Energies_{}", "data", "rank", "transformTR", "transformInv", "comment", "E_titles"}
             r1.check(need <= written, "energies, data, rank, transformations and comment are all written", wd, wd.node,
                      f"EnergyResult.as_dict no longer writes {sorted(need - written)}", stmt=f"missing {sorted(need - written)}")
-            tr = norm(rd.node).replace(" ", "")
-            for fld, frag in (("Energies", "Energies=energ"), ("data", "data=res['data']"), ("rank", "rank=res['rank']"),
-                              ("transformTR", "transformTR=transform_from_dict(res,'transformTR')"),
-                              ("transformInv", "transformInv=transform_from_dict(res,'transformInv')"), ("comment", "comment=comment")):
-                r1.check(frag in tr, f"loaded {fld} is passed to the constructor", rd, rd.node,
+            RS_ = Sem(idx, rd)
+            RS_.keep_names = {"res"}
+            ctor = [c_ for c_ in ast.walk(rd.node) if isinstance(c_, ast.Call) and norm(c_.func) in ("cls", "EnergyResult") and any(k.arg == "data" for k in c_.keywords)]
+            if len(ctor) != 1:
+                raise AnalysisError("EnergyResult.from_npz: constructor call not found")
+            at_c = RS_.du.node_of_expr(ctor[0])
+            kwv = {k.arg: k.value for k in ctor[0].keywords}
+            import re as _re
+
+            def got(fld):
+                v = kwv.get(fld)
+                if v is None:
+                    return set()
+                out_ = {norm(x) for x in RS_.alternatives(v, at_c)}
+                el_ = RS_.element(v, at_c) if fld == "Energies" else None
+                if el_ is not None:
+                    out_.add(_re.sub(r"IT\d+_\d+", "I", norm(el_)))
+                return out_
+            wants = {"Energies": lambda g_: any(_re.fullmatch(r"res\[f'Energies_\{\w+\}'\]", x) for x in g_),
+                     "data": lambda g_: "res['data']" in g_, "rank": lambda g_: "res['rank']" in g_,
+                     "transformTR": lambda g_: "transform_from_dict(res, 'transformTR')" in g_,
+                     "transformInv": lambda g_: "transform_from_dict(res, 'transformInv')" in g_,
+                     "comment": lambda g_: any("res['comment']" in x for x in g_)}
+            for fld, pred in wants.items():
+                r1.check(pred(got(fld)), f"loaded {fld} is passed to the constructor", rd, ctor[0],
                          f"EnergyResult.from_npz does not restore `{fld}` from the file", stmt=f"restore {fld}")
     # Transform
     tc = idx.cls(PS, "Transform")
@@ -131,12 +199,21 @@ def run(ctx) -> None:
             m = c.methods.get(mname)
             if m is None:
                 raise AnalysisError(f"{cn}.{mname} vanished")
+            m = inline_private_helpers(idx, m)
+            MS = Sem(idx, m)
             for cc in _ctor_calls(m):
                 r2.instance(f"{cn}.{mname}: {norm1(cc.func)}(…)")
-                kw = {k.arg: norm(k.value) for k in cc.keywords}
+                at_cc = MS.du.node_of_expr(cc)
+                kw = {}
+                for k in cc.keywords:
+                    if k.arg:
+                        alts = {norm(x) for x in MS.alternatives(k.value, at_cc)}
+                        alts_nn = alts - {"None"}
+                        kw[k.arg] = sorted(alts_nn) if alts_nn else [norm(k.value)]
                 for fld in carried[cn]:
-                    v = kw.get(fld)
-                    ok = v is not None and (v == f"self.{fld}" or (fld == "save_mode" and v.startswith("self.save_mode")))
+                    vs = kw.get(fld)
+                    v = None if vs is None else (vs[0] if len(vs) == 1 else " | ".join(vs))
+                    ok = vs is not None and all(x == f"self.{fld}" or (fld == "save_mode" and x.startswith("self.save_mode")) for x in vs)
                     r2.check(ok, f"{cn}.{mname}: {fld}=self.{fld}", m, cc,
                              f"{cn}.{mname} builds its result with {fld}={v}: the field `{fld}` is "
                              f"{'dropped (constructor default used)' if v is None else 'not taken from the operand'}, so a+b / a*x / "
@@ -145,11 +222,20 @@ def run(ctx) -> None:
     # ---------------------------------------------------------------- R16.3
     r3 = ctx.rule("R16.3", "element-wise data; neutral element; key-wise dictionary", min_instances=6)
     e = idx.cls(ER, "EnergyResult")
-    forms = {"__add__": "data=self.data + other.data", "__mul__": "data=self.data * number", "mul_array": "data=self.data * other.reshape(reshape)"}
+    forms = {"__add__": "self.data + OTHER.data", "__mul__": "self.data * OTHER", "mul_array": "self.data * OTHER.reshape(ANY)"}
     for mname, frag in forms.items():
-        m = e.methods[mname]
+        m = inline_private_helpers(idx, e.methods[mname])
+        MS = Sem(idx, m)
         r3.instance(f"EnergyResult.{mname}")
-        r3.check(frag in norm(m.node), f"EnergyResult.{mname}: {frag}", m, m.node,
+        okd = False
+        oth = m.params[1]
+        for cc in _ctor_calls(m):
+            dv = next((k.value for k in cc.keywords if k.arg == "data"), None)
+            if dv is not None:
+                dres = MS.resolve(dv, MS.du.node_of_expr(cc))
+                m_ = pmatch(dres, frag.replace("OTHER", oth))
+                okd = okd or (bool(m_) and m_[0][0] is dres)
+        r3.check(okd, f"EnergyResult.{mname}: data = {frag}", m, m.node,
                  f"EnergyResult.{mname} does not combine the data element-wise (`{frag}`)", stmt=frag)
     r3.check("return self + -1 * other" in norm(e.methods["__sub__"].node), "a − b = a + (−1)·b", e.methods["__sub__"], e.methods["__sub__"].node,
              "EnergyResult.__sub__ is not a + (−1)·b", stmt="__sub__")
@@ -160,7 +246,15 @@ def run(ctx) -> None:
              e.methods["__add__"], e.methods["__add__"].node, "EnergyResult.__add__ no longer returns self for 0/None/VoidResult", stmt="neutral")
     k = idx.cls(KB, "K__Result")
     r3.instance("K__Result")
-    r3.check("[d * number for d in self.data_list]" in norm(k.methods["__mul__"].node), "K__Result.__mul__ scales every block", k.methods["__mul__"],
+    KM = Sem(idx, k.methods["__mul__"])
+    okkm = False
+    for cc in _ctor_calls(k.methods["__mul__"]):
+        dv = next((kk.value for kk in cc.keywords if kk.arg == "data"), cc.args[0] if cc.args else None)
+        if dv is not None:
+            el_ = KM.element(dv, KM.du.node_of_expr(cc))
+            import re as _re
+            okkm = okkm or (el_ is not None and _re.sub(r"IT\d+_\d+", "I", norm(el_)) in (f"self.data_list[I] * {k.methods['__mul__'].params[1]}", f"{k.methods['__mul__'].params[1]} * self.data_list[I]"))
+    r3.check(okkm, "K__Result.__mul__ scales every block", k.methods["__mul__"],
              k.methods["__mul__"].node, "K__Result.__mul__ does not scale every data block", stmt="K mul")
     r3.check("self.data_list = [d1 + d2 for d1, d2 in zip(self.data_list, other.data_list)]" in norm(k.methods["add"].node), "K__Result.add is element-wise",
              k.methods["add"], k.methods["add"].node, "K__Result.add is not element-wise", stmt="K add")
@@ -177,11 +271,34 @@ def run(ctx) -> None:
              "x·a = a·x and b + a = a + b", f"{RS}:Result", rb.node, "Result.__rmul__/__radd__ changed", stmt="r-ops")
     d = idx.cls(RD, "ResultDict")
     r3.instance("ResultDict")
-    td = {n: norm(m.node) for n, m in d.methods.items()}
-    r3.check("{k: v * number for k, v in self.results.items()}" in td["__mul__"] and "{k: v / number for k, v in self.results.items()}" in td["__truediv__"] and
-             "{k: self.results[k] + other.results[k] for k in self.results if k in other.results}" in td["__add__"] and
-             "{k: self.results[k].transform(sym) for k in self.results}" in td["transform"] and "return self + -1 * other" in td["__sub__"],
-             "ResultDict acts key by key", f"{RD}:ResultDict", d.node, "ResultDict arithmetic/transform is no longer key-wise", stmt="ResultDict")
+    def rd_form(mname: str):
+        m_ = d.methods.get(mname)
+        if m_ is None:
+            return None
+        S_ = Sem(idx, m_)
+        for c_ in ast.walk(m_.node):
+            if isinstance(c_, ast.Call) and call_name(c_) == "ResultDict" and c_.args:
+                return _dict_normal(S_, c_.args[0], S_.du.node_of_expr(c_)), m_
+        return None, m_
+    okrd = True
+    why_rd = []
+    for mname, want_val, want_cond in (("__mul__", "self.results[K] * {p}", []), ("__truediv__", "self.results[K] / {p}", []),
+                                       ("__add__", "self.results[K] + {p}.results[K]", ["K in {p}.results"]), ("transform", "self.results[K].transform({p})", [])):
+        got = rd_form(mname)
+        nf, m_ = got if got else (None, None)
+        if nf is None:
+            okrd = False
+            why_rd.append(f"{mname}: construction not understood")
+            continue
+        key, val, src, conds = nf
+        par = m_.params[1]
+        wv = want_val.replace("K", key).format(p=par)
+        wc = [c_.replace("K", key).format(p=par) for c_ in want_cond]
+        if not (src == "self.results" and val == wv and sorted(conds) == sorted(wc)):
+            okrd = False
+            why_rd.append(f"{mname}: {{{key}: {val} for {key} in {src} if {conds}}}")
+    okrd = okrd and bool(pmatch(d.methods["__sub__"].node, f"return self + -1 * {d.methods['__sub__'].params[1]}") or pmatch(d.methods["__sub__"].node, f"return self + (-1) * {d.methods['__sub__'].params[1]}"))
+    r3.check(okrd, "ResultDict acts key by key", f"{RD}:ResultDict", d.node, f"ResultDict arithmetic/transform is no longer key-wise ({'; '.join(why_rd)})", stmt="ResultDict")
 
     # ---------------------------------------------------------------- R16.4
     r4 = ctx.rule("R16.4", "symmetry transformation never modifies its operand")
